@@ -537,7 +537,11 @@ func (s *sched) release(g *gor, run []*gor) {
 	lb = append(lb, " a"...)
 	lb = strconv.AppendInt(lb, int64(s.aidx(m.Addr)), 10)
 	lb = append(lb, " x"...)
-	lb = strconv.AppendUint(lb, m.Arg, 10)
+	if m.Kind == rt.KCondWait {
+		lb = strconv.AppendUint(lb, uint64(s.aidx(uintptr(m.Arg))), 10) // Arg is the lock's address
+	} else {
+		lb = strconv.AppendUint(lb, m.Arg, 10)
+	}
 	line := string(lb)
 	if s.traceFull {
 		s.trace = append(s.trace, line)
